@@ -277,6 +277,29 @@ let handle kind fs obs =
            | Ok j -> "JT:" ^ pct_of_nlist (print_json j)
            | Err e -> "JT:!model-" ^ show_err e | Fault _ -> "JT:!model-fault")
         end
+      end else if String.length t > 3 && String.sub t 0 3 = "JD:" then begin
+        (* Serialize for Directory on the root: the model's text, compared as a whole *)
+        if t = "JD:!big" then t else begin
+          let mt = (match acc_resources fspec file m with
+            | Ok s -> (match root s with
+                | Ok r -> (match json_directory s r with Ok j -> "JD:" ^ pct_of_nlist (print_json j) | _ -> "JD:!model")
+                | _ -> "JD:!model-no-root")
+            | _ -> "JD:!model-no-resources") in
+          if mt <> t then fail "json-directory" else tag "jd-ok"; mt
+        end
+      end else if String.length t > 4 && String.sub t 0 2 = "JE" && t.[3] = ':' then begin
+        (* Serialize for DirectoryEntry on the k-th entry of the root *)
+        let k = Char.code t.[2] - 48 in
+        if String.length t >= 8 && String.sub t 4 4 = "!big" then t else begin
+          let mt = (match acc_resources fspec file m with
+            | Ok s -> (match root s with
+                | Ok r -> (match List.nth_opt (entries s r) k with
+                    | Some e -> (match json_dir_entry s e with Ok j -> Printf.sprintf "JE%d:%s" k (pct_of_nlist (print_json j)) | _ -> "JE:!model")
+                    | None -> "JE:!model-no-entry")
+                | _ -> "JE:!model-no-root")
+            | _ -> "JE:!model-no-resources") in
+          if mt <> t then fail "json-dir-entry" else tag "je-ok"; mt
+        end
       end else if String.length t > 5 && String.sub t 0 5 = "json=" then begin
         json_seen := true;
         if t <> "json=ok" then fail "json"; "json=ok"
